@@ -153,6 +153,10 @@ class contentsSet(GenericEquality):
         if not self.mutable:
             raise TypeError(f"immutable type {self!r}")
 
+        if other is self:
+            # removing while iterating our own dict would blow up; like set, a - a is empty
+            self._dict.clear()
+            return
         rem = self.remove
         for x in other:
             if x in self:
